@@ -6,12 +6,21 @@ C41 line-protocol driver.
   snap <cached> <cdir> <dir> => <state>,<dir>                      rows of the CURRENT source's snapshot function
   leaf <ps> <pd> <cached> <cdir> <dir> <rc> <rcdir> => reload=…,…,err=…   rows of the CURRENT source's decision tree
       (rc/rcdir = does the re-load find an entry / the direction of that entry)
-      (printed by `extract c41-lines` from overlay/reuse.go as it is now; compared with the compiled-in Gen table)
-  sched <dual 0|1> <preP> <preQ> <step,step,…> => P=<entry>;Q=<entry>;closed=<conns>;Pc=<r>;Qc=<r>;Qd=<r>;Pd=<r>
-      one maximal interleaving, executed by the harness' simulator over the CURRENT rows.
+  reap <loaded> => del=…,closeCached=…,closeTrigger=…              what the CURRENT reapPeer does with the cached entry
+      (printed by `extract c41-lines` from overlay/reuse.go and overlay/reaper.go as they are now; compared with
+      the compiled-in Gen table)
+  sched <dual 0|1> <preP> <preQ> <step,step,…> => P=<entry>;Q=<entry>;closed=<conns>;Pc=<r>;Qc=<r>;Qd=<r>;Pd=<r>[;eP=<w>][;eQ=<w>]
+      one interleaving, executed by the harness' simulator over the CURRENT rows. Steps: s|d|r + Pc|Qc|Qd|Pd
+      (snapshot, decide, reap), eP|eQ (reap by the close-watcher of the pre-existing connection e), lP|lQ (a stale
+      reap: a second reapPeer for an older connection that died long ago). closed: lower case = closed by the
+      negotiation (or by a reap such a close caused), upper case = closed by a stale reap (or by a reap it
+      caused). eP/eQ (only for sides that cached e initially): watch = the watcher still waits, reaped.
       DIFF: differs from the Lean model run with the generated table. SPEC: the reported final state violates
       no-split-brain / reused-never-closed / cache-new-only-if-peer-does (decided from the reported state alone).
-  live <trial> => <outcome>                                        real overlay.QUIC transports (validated only)
+  live <trial> => <outcome>                                        real overlay.QUIC transports, simultaneous dials
+  relive <trial> => <outcome>     real transports: connect, the connection dies, reconnect the other way round,
+      then a late second reap of the dead connection; SPEC: afterwards one peer caches a live connection that the
+      other peer does not cache (decided from the reported caches alone)
 -/
 namespace Specter.C41
 open Specter.Util Gen.C41
@@ -40,7 +49,12 @@ def parseProc (s : String) : Option Proc :=
   if s = "Pc" then some .Pc else if s = "Qc" then some .Qc else if s = "Qd" then some .Qd else if s = "Pd" then some .Pd else none
 def parseStep (s : String) : Option Step :=
   let k := (s.take 1).toString
-  match parseProc (s.drop 1).toString with
+  let rest := (s.drop 1).toString
+  if k = "e" ∨ k = "l" then
+    let x := if rest = "P" then some Side.P else if rest = "Q" then some Side.Q else none
+    x.map fun x => if k = "e" then Step.reapE x else Step.late x
+  else
+  match parseProc rest with
   | some i => if k = "s" then some (.snap i) else if k = "d" then some (.dec i) else if k = "r" then some (.reap i) else none
   | none => none
 
@@ -55,11 +69,15 @@ def resStr : PC → String
      | .err => "err") ++ (if reaped then "+reaped" else "")
 
 def closedStr (s : St) : String :=
-  let r := (if s.closedE then "e" else "") ++ (if s.closedC then "c" else "") ++ (if s.closedD then "d" else "")
+  let one (c : Cl) (lo up : String) : String := match c with | .open => "" | .neg => lo | .late => up
+  let r := one s.clE "e" "E" ++ one s.clC "c" "C" ++ one s.clD "d" "D"
   if r = "" then "-" else r
 
-def stStr (s : St) : String :=
+/-- `pre` = the initial caches: one `e<side>` field per side that cached `e` initially (it runs a close-watcher) -/
+def stStr (pre : Entry × Entry) (s : St) : String :=
+  let w (b : Bool) : String := if b then "watch" else "reaped"
   s!"P={entryStr s.cacheP};Q={entryStr s.cacheQ};closed={closedStr s};Pc={resStr s.pPc};Qc={resStr s.pQc};Qd={resStr s.pQd};Pd={resStr s.pPd}"
+    ++ (if pre.1.isSome then ";eP=" ++ w s.watchP else "") ++ (if pre.2.isSome then ";eQ=" ++ w s.watchQ else "")
 
 def boolS (b : Bool) : String := if b then "true" else "false"
 def actStr (a : Act) : String :=
@@ -75,7 +93,7 @@ def field (rhs key : String) : String :=
 
 /-- is the reported state final (all negotiations finished, all due reaps done)? decided from the report alone -/
 def reportedFinal (dual : Bool) (rhs : String) : Bool :=
-  let closed := field rhs "closed"
+  let closed := (field rhs "closed").toLower      -- closed by whatever
   let isIn (x : String) : Bool := (closed.splitOn x).length > 1
   let ok (k conn : String) (active : Bool) : Bool :=
     let r := field rhs k
@@ -83,9 +101,12 @@ def reportedFinal (dual : Bool) (rhs : String) : Bool :=
     else if r = "idle" ∨ r = "snapped" ∨ r = "?" then false
     else if r = "fresh" ∧ isIn conn then false     -- a stored connection was closed: its reap is still due
     else true
-  ok "Pc" "c" true && ok "Qc" "c" true && ok "Qd" "d" dual && ok "Pd" "d" dual
+  -- the close-watcher of a closed pre-existing connection still has to reap
+  let watcherDone (k : String) : Bool := !(field rhs k = "watch" && isIn "e")
+  ok "Pc" "c" true && ok "Qc" "c" true && ok "Qd" "d" dual && ok "Pd" "d" dual && watcherDone "eP" && watcherDone "eQ"
 
-/-- the property, decided from the reported final state alone -/
+/-- the property, decided from the reported final state alone (`closed`: only lower-case letters are closes by
+the negotiation) -/
 def specOf (rhs : String) : Option String :=
   let connOf (e : String) : String := ((e.splitOn ":").headD "-")
   let p := connOf (field rhs "P")
@@ -99,6 +120,20 @@ def specOf (rhs : String) : Option String :=
     match results.filter fun (_, r) => r.startsWith "reused:" ∧ (closed.splitOn ((r.drop 7).toString)).length > 1 ∧ r ≠ "reused:-" with
     | (k, r) :: _ => some s!"{k} got {r} but that connection was closed by the negotiation (closed={closed})"
     | [] => none
+
+/-- `relive` lines report, after the late reap and after the reaps it causes had time to run,
+`…;cacheA=<-|open|closed>;cacheB=<-|open|closed>;same=<yes|no|n/a>;redial=<ok|…>`.
+The property: a peer caches a live connection only if the other peer caches the same one. -/
+def reliveVerdict (rhs : String) : Verdict :=
+  if rhs.startsWith "setup:" then .ok else       -- the scenario could not be set up (validated only)
+  let a := field rhs "cacheA"
+  let b := field rhs "cacheB"
+  let same := field rhs "same"
+  if a = "?" ∨ b = "?" ∨ same = "?" then .bad "relive fields"
+  else if a = "open" ∧ b ≠ "open" then .spec s!"after the late reap A caches a live connection to B but B caches {b}"
+  else if b = "open" ∧ a ≠ "open" then .spec s!"after the late reap B caches a live connection to A but A caches {a}"
+  else if a = "open" ∧ b = "open" ∧ same ≠ "yes" then .spec "after the late reap the peers cache different live connections"
+  else .ok
 
 def drvStep (_ : Unit) (toks : List String) (rhs : String) : Unit × Verdict :=
   match toks with
@@ -118,16 +153,24 @@ def drvStep (_ : Unit) (toks : List String) (rhs : String) : Unit × Verdict :=
       if m = rhs then ((), .ok) else ((), .diff m)
     | _, _, _, _, _, _, _ => ((), .bad "leaf args")
   | ["sched", dual, pp, pq, steps] =>
-    match parseEntry pp, parseEntry pq, (steps.splitOn ",").mapM parseStep with
+    match parseEntry pp, parseEntry pq, (if steps = "-" then some [] else (steps.splitOn ",").mapM parseStep) with
     | some pp, some pq, some l =>
       match (if reportedFinal (dual = "1") rhs then specOf rhs else none) with
       | some w => ((), .spec w)
       | none =>
-        let m := stStr (run genTable (init (dual = "1") (pp, pq)) l)
+        let m := stStr (pp, pq) (run genTable (init (dual = "1") (pp, pq) (true, true)) l)
         if m = rhs then ((), .ok) else ((), .diff m)
     | _, _, _ => ((), .bad "sched args")
+  | ["reap", ld] =>
+    match parseBool ld with
+    | some ld =>
+      let a := Gen.C41.reap ld
+      let m := s!"del={boolS a.del},closeCached={boolS a.closeCached},closeTrigger={boolS a.closeTrigger}"
+      if m = rhs then ((), .ok) else ((), .diff m)
+    | none => ((), .bad "reap args")
   | "live" :: _ =>
     if rhs.startsWith "ok" then ((), .ok) else ((), .spec rhs)
+  | "relive" :: _ => ((), reliveVerdict rhs)
   | _ => ((), .bad "unknown op")
 
 def main : IO Unit := runLoop () drvStep
